@@ -628,18 +628,20 @@ Ltac sums F :=
 Lemma infl_pc th p : infl (set_pc th p) = match p with WRet _ 0 took => took | _ => 0 end.
 Proof. reflexivity. Qed.
 
+Lemma infl_at s t p : t_pc (getth s t) = p -> infl (getth s t) = match p with WRet _ 0 took => took | _ => 0 end.
+Proof. intros <-. reflexivity. Qed.
+
 Lemma tstep_ledger s t s' : tstep s t = Some s' -> pc_wf (pcof s t) ->
   (m_count s' = m_count s /\ tokens s' = tokens s) \/
   (exists n ep, pcof s t = SAdd n ep /\ m_count s' = wrap (m_count s + n) /\ tokens s' = tokens s + n) \/
   (exists a, pcof s t = WCas a (m_count s) /\ m_count s' = m_count s - w_c a /\ tokens s' = tokens s - w_c a).
 Proof.
   intros H. unfold pcof, tokens, inflight.
-  tstep_cases H; apply ltb_lt in Hlt; intros [W1 W2]; unf; brk; sums infl; unfold infl at 1 2; thsimp; try rewrite Hpc;
+  tstep_cases H; apply ltb_lt in Hlt; intros [W1 W2]; unf; brk; sums infl; rewrite ?infl_pc, ?(infl_at _ _ _ Hpc);
     try (left; split; [reflexivity|lia]).
   all: zb; subst.
-  all: try (left; split; [reflexivity|destruct ret; try lia; destruct W2; lia]).
+  all: try (left; split; [reflexivity|]; destruct ret; try lia; try congruence; destruct W2 as [[? ?]|[? ?]]; try lia; try congruence; fail).
+  all: try (left; split; [reflexivity|]; lia).
   - right; right. exists a. repeat split; auto. lia.
-  - left; split; auto. destruct W2 as [[? ?]|[? ?]]; subst; lia.
-  - left; split; auto. destruct W2 as [[? ?]|[? ?]]; subst; lia.
   - right; left. exists n, ep. repeat split; auto. lia.
 Qed.
